@@ -26,7 +26,7 @@ INFO = dict(
         "variants (RSA private key only, AES random bytes, AES+HMAC keys); task data, callback data (0..3 symbolic bytes: every padding "
         "residue), callback ids and counters symbolic; each recorded message is decoded by a FRESH C2Http and must yield exactly the "
         "metadata / task / callback packets sent, in order; one configuration also goes through the raw HTTP wire form and parse_raw_http",
-        thorough="histories of <= 4 steps; 5 configurations; raw wire form for all",
+        thorough="histories of <= 4 steps; 5 configurations; raw wire form for the three configurations without symbolic URL parameters",
     ),
     outside="HTTP serialisation by httpx/h11 and the network, TLS, proxies (the harness renders the recorded request itself); the "
     "cryptographic primitives (AES-CBC, HMAC, SHA-256 uninterpreted; PKCS#1 contract stub) — C05/C06; the transforms as such are C04's "
@@ -277,7 +277,8 @@ def instances(tier):
                     continue
                 if q and cfgname in ("sameverb", "slash") and keys != "rsa":
                     continue
-                raw = (cfgname == "cookie" and h in (("T", "C"), ("N", "T", "C"))) or cfgname == "slash" or not q
+                # (the raw wire form needs concrete URL parameters: configurations that carry symbolic data in a parameter are decoded as objects)
+                raw = cfgname == "slash" or (cfgname in ("cookie", "sameverb") and (not q or h in (("T", "C"), ("N", "T", "C"))))
                 i = Instance("session %s keys=%s history=%s%s" % (cfgname, keys, "".join(h), " raw" if raw else ""), h_session(cfgname, keys, h, raw),
                              dict(kind="session", config=cfgname, keys=keys, history=list(h), raw_http=raw, cost=100 * len(h)), split=10)
                 i.native_patches = list(CL.NATIVE_PATCHES) + [(client, "random_windows_ver", fixed_windows_ver)]
